@@ -8,6 +8,10 @@ package main
 // concrete) execution. This validates the model against the encoding and the
 // path, not the engine against the Go compiler; harnesses that use it say so
 // in their directive (replay=interp) and in the evidence.
+//
+// ConfirmSchedule does the same for counterexamples that hinge on a particular
+// interleaving (the native replay cannot force the Go scheduler): the exact
+// decision trace - thread switches included - is replayed with pinned draws.
 
 import (
 	"time"
@@ -16,7 +20,7 @@ import (
 func (e *Engine) ConfirmInterp(spec *HarnessSpec, v *Violation) (bool, string) {
 	s2 := *spec
 	s2.MaxPaths = 300
-	h := e.runHarnessWith(&s2, 1, time.Now().Add(2*time.Minute), v.Model)
+	h := e.runHarnessFrom(&s2, 1, time.Now().Add(2*time.Minute), v.Model, nil)
 	for _, w := range h.Violations {
 		if w.Kind == v.Kind && w.Msg == v.Msg {
 			return true, "re-executed in the interpreter with all draws pinned to the model: the same assertion fails"
@@ -26,4 +30,46 @@ func (e *Engine) ConfirmInterp(spec *HarnessSpec, v *Violation) (bool, string) {
 		return false, "interpreter replay hit an unsupported operation"
 	}
 	return false, "interpreter replay with pinned draws did not reproduce the failure"
+}
+
+func hasSchedChoice(v *Violation) bool {
+	return len(v.Sched) > 0
+}
+
+func (e *Engine) ConfirmSchedule(spec *HarnessSpec, v *Violation) (bool, string) {
+	s2 := *spec
+	s2.MaxPaths = 1
+	h := e.runHarnessFrom(&s2, 1, time.Now().Add(2*time.Minute), v.Model, v.Trace)
+	for _, w := range h.Violations {
+		if w.Kind == v.Kind && w.Msg == v.Msg {
+			return true, "schedule-dependent: the exact decision trace (thread switches included) re-executed in the interpreter with pinned draws fails the same assertion; the native replay cannot force the Go scheduler"
+		}
+	}
+	detail := ""
+	for k, n := range h.Ends {
+		detail += k + "=" + itoa(n) + " "
+	}
+	for m := range h.Unsupported {
+		detail += " | " + firstLines(m, 3)
+	}
+	return false, "exact re-execution of the decision trace did not reproduce the failure (" + detail + ")"
+}
+
+func itoa(n int) string {
+	if n == 0 {
+		return "0"
+	}
+	s := ""
+	neg := n < 0
+	if neg {
+		n = -n
+	}
+	for n > 0 {
+		s = string(rune('0'+n%10)) + s
+		n /= 10
+	}
+	if neg {
+		s = "-" + s
+	}
+	return s
 }
